@@ -214,12 +214,13 @@ pub struct Stats {
     queries: u64,
     hits: u64,
     recomputes: u64,
+    queries_on_empty_db: u64,
 }
 
 pub fn run_history(ops: &[Op], every: usize, concurrent: bool) -> Result<Stats, (String, String, usize)> {
     let db = Arc::new(RwLock::new(Database::new()));
     let mut texts: BTreeMap<usize, String> = BTreeMap::new();
-    let mut st = Stats { compared: 0, queries: 0, hits: 0, recomputes: 0 };
+    let mut st = Stats { compared: 0, queries: 0, hits: 0, recomputes: 0, queries_on_empty_db: 0 };
     db.read().unwrap().reset_salsa_event_counters();
     let stop = Arc::new(std::sync::atomic::AtomicBool::new(false));
     let reader = if concurrent {
@@ -277,6 +278,9 @@ pub fn run_history(ops: &[Op], every: usize, concurrent: bool) -> Result<Stats, 
                     }
                 }
                 st.queries += 1;
+                if texts.is_empty() && oi < 4 {
+                    st.queries_on_empty_db += 1;
+                }
             }
         }
         if (oi + 1) % every == 0 || oi + 1 == ops.len() {
@@ -337,6 +341,12 @@ fn gen_ops(rng: &mut Rng) -> Vec<Op> {
     let n = 5 + rng.usize(56);
     let nfiles = 1 + rng.usize(NFILES);
     let mut ops = Vec::new();
+    // a fifth of the histories query the database before it has ever held a file (and a file it never holds)
+    if rng.chance(1, 5) {
+        for _ in 0..1 + rng.usize(3) {
+            ops.push(Op::Query(rng.usize(nfiles), rng.below(4) as u8));
+        }
+    }
     // start with a plausible project, loaded in a random order (not by ascending file id)
     let mut order: Vec<usize> = (0..nfiles).collect();
     rng.shuffle(&mut order);
@@ -411,6 +421,7 @@ fn one(sh: &mut Shard, ops: Vec<Op>, concurrent: bool) {
         Ok(Ok(st)) => {
             sh.count("answers_compared", st.compared);
             sh.count("interleaved_queries", st.queries);
+            sh.count("queries_before_the_first_file", st.queries_on_empty_db);
             sh.count("salsa_cache_hits", st.hits);
             sh.count("salsa_recomputes", st.recomputes);
             sh.count("histories_ok", 1);
